@@ -105,17 +105,21 @@ _MISSING = object()
 
 
 class bitarray:
-    __slots__ = ('_n', '_v', '_ro', '_exports', '__weakref__')
+    __slots__ = ('_n', '_v', '_ro', '_exports', '_le', '__weakref__')
 
     # ------------------------------------------------------------ construction
-    def __new__(cls, initializer=None, /, endian='big', buffer=None):
+    def __new__(cls, initializer=None, /, endian=None, buffer=None):
+        # the internal value is always in item order (item 0 = most significant z3 bit); the bit-endianness only
+        # matters for byte/integer conversions (tobytes, frombytes, buffers, util.ba2int, ...) and is kept in _le
         self = object.__new__(cls)
         self._ro = False
         self._exports = 0
-        if endian not in ('big', None):
-            if endian == 'little':
-                raise NotImplementedError("sbx model: only big-endian bitarrays are modelled")
+        if endian not in ('big', 'little', None):
             raise ValueError(f"bit-endianness must be either 'little' or 'big', not '{endian}'")
+        if endian is None:
+            self._le = bool(initializer._le) if isinstance(initializer, bitarray) else False
+        else:
+            self._le = endian == 'little'
         if buffer is not None:
             if initializer is not None:
                 raise TypeError("buffer requires no initializer argument")
@@ -125,6 +129,9 @@ class bitarray:
             else:
                 b = bytes(buffer)
                 self._n, self._v = 8 * len(b), int.from_bytes(b, 'big')
+            if self._le:
+                with NoTracing():
+                    self._v = C.reverse_each_byte(self._v, self._n)
             self._ro = True
             return self
         if initializer is None:
@@ -154,9 +161,9 @@ class bitarray:
         pass
 
     @classmethod
-    def _mk(cls, n, v):
+    def _mk(cls, n, v, le=False):
         self = object.__new__(cls)
-        self._n, self._v, self._ro, self._exports = n, (v if n else 0), False, 0
+        self._n, self._v, self._ro, self._exports, self._le = n, (v if n else 0), False, 0, bool(le)
         return self
 
     # ------------------------------------------------------------ basic protocol
@@ -169,7 +176,7 @@ class bitarray:
 
     @property
     def endian(self):
-        return 'big'
+        return 'little' if self._le else 'big'
 
     @property
     def nbytes(self):
@@ -184,12 +191,12 @@ class bitarray:
             raise TypeError("cannot modify read-only memory")
 
     def copy(self):
-        return bitarray._mk(self._n, self._v)
+        return bitarray._mk(self._n, self._v, self._le)
 
     __copy__ = copy
 
     def __deepcopy__(self, memo):
-        return bitarray._mk(self._n, self._v)
+        return bitarray._mk(self._n, self._v, self._le)
 
     def __repr__(self):
         return f"bitarray('{self.to01()}')"
@@ -257,13 +264,13 @@ class bitarray:
             start, stop, step, length = _adjust(key, n)
             L = _conc(length)
             if L == 0:
-                return bitarray._mk(0, 0)
+                return bitarray._mk(0, 0, self._le)
             with NoTracing():
                 if _step_is(step, 1):
                     v = C.take(self._v, n, C.ival(start), L)
                 else:
                     v = C.gather(self._v, n, C.ival(start), C.ival(step), L)
-                return bitarray._mk(L, v)
+                return bitarray._mk(L, v, self._le)
         if isinstance(key, (list, tuple, bitarray)):
             return self._getseq(key)
         if not isinstance(key, int):
@@ -291,7 +298,7 @@ class bitarray:
                 if k < 0 or k >= self._n:
                     raise IndexError("bitarray index out of range")
                 idx.append(k)
-        r = bitarray._mk(0, 0)
+        r = bitarray._mk(0, 0, self._le)
         for i in idx:
             r._append_bit(self._sel(i))
         return r
@@ -436,10 +443,10 @@ class bitarray:
     def __mul__(self, k):
         k = _conc(_index(k))
         if k <= 0:
-            return bitarray._mk(0, 0)
+            return bitarray._mk(0, 0, self._le)
         with NoTracing():
             n, v = C.cat([(self._n, self._v)] * k)
-        return bitarray._mk(n, v)
+        return bitarray._mk(n, v, self._le)
 
     __rmul__ = __mul__
 
@@ -519,13 +526,15 @@ class bitarray:
             return NotImplemented
         if self._n != other._n:
             raise ValueError("bitarrays of equal length expected")
+        if self._le != other._le:
+            raise ValueError("bitarrays of equal bit-endianness expected")
         with NoTracing():
             v = C.binop(op, self._v, other._v, self._n)
         if inplace:
             self._wr()
             self._v = v
             return self
-        return bitarray._mk(self._n, v)
+        return bitarray._mk(self._n, v, self._le)
 
     def __and__(self, o):
         return self._bin(o, 'and', False)
@@ -547,7 +556,7 @@ class bitarray:
 
     def __invert__(self):
         with NoTracing():
-            return bitarray._mk(self._n, C.invert_all(self._v, self._n))
+            return bitarray._mk(self._n, C.invert_all(self._v, self._n), self._le)
 
     def _shift(self, k, left):
         k = _index(k)
@@ -567,10 +576,10 @@ class bitarray:
         return v
 
     def __lshift__(self, k):
-        return bitarray._mk(self._n, self._shift(k, True))
+        return bitarray._mk(self._n, self._shift(k, True), self._le)
 
     def __rshift__(self, k):
-        return bitarray._mk(self._n, self._shift(k, False))
+        return bitarray._mk(self._n, self._shift(k, False), self._le)
 
     def __ilshift__(self, k):
         self._wr()
@@ -712,7 +721,12 @@ class bitarray:
     # ------------------------------------------------------------ conversions
     def tobytes(self):
         with NoTracing():
-            items = C.byte_terms(self._v, self._n)
+            if self._le:
+                n8 = 8 * ((self._n + 7) // 8)
+                _, padded = C.cat([(self._n, self._v), (n8 - self._n, 0)])
+                items = C.byte_terms(C.reverse_each_byte(padded, n8), n8)
+            else:
+                items = C.byte_terms(self._v, self._n)
             if all(C.is_conc(x) for x in items):
                 return bytes(items)
             return C.SymbolicBytes([C.wrap_int(x) for x in items])
@@ -729,6 +743,8 @@ class bitarray:
             else:
                 raise TypeError(f"a bytes-like object is required, not '{type(b).__name__}'")
             n2, v2 = C.from_byte_terms([C.ival(x) for x in seq])
+            if self._le:
+                v2 = C.reverse_each_byte(v2, n2)
             self._n, self._v = C.cat([(self._n, self._v), (n2, v2)])
 
     def to01(self, group=0, sep=' '):
